@@ -154,6 +154,7 @@ int main(int argc, char **argv) {
     R.nworkers = (int) A.geti("workers", 16);
     R.hang_limit_s = 600;
     if (A.has("deadline-s")) R.deadline_abs = vr::now_s() + A.getd("deadline-s", 0);
+    vx::stop_hook() = [&R]() { return R.expired(); };
 
     if (A.has("replay-case")) {
         auto pc = vg::parse_case(A.get("replay-case"));
@@ -179,11 +180,13 @@ int main(int argc, char **argv) {
     if (A.has("families")) fams = vr::split(A.get("families"), ',');
     std::unique_ptr<vg::BlobUniverse> blob;
     if (A.has("grammar")) { auto t = vr::split(A.get("grammar"), ':'); blob.reset(new vg::BlobUniverse(atoi(t[1].c_str()), atoi(t[2].c_str()))); }
-    uint64_t total_units = blob ? blob->size() : fams.empty() ? vg::num_graphs(n) : fams.size();
+    uint64_t ngraphs = blob ? blob->size() : fams.empty() ? vg::num_graphs(n) : fams.size();
+    uint64_t wchunks = (uint64_t) A.geti("wchunks", 1);      // a unit is (graph, residue class of weightings)
+    uint64_t total_units = ngraphs * wchunks;
     uint64_t seed = (uint64_t) A.geti("seed", 0);
-    int min_dim = (int) A.geti("min-dim", 0);
+    int min_dim = (int) A.geti("min-dim", 0), min_m = (int) A.geti("min-m", 0), max_m = (int) A.geti("max-m", 62);
     int orient_mode = (int) A.geti("orient", 0);
-    auto unit_graph0 = [&](uint64_t u) { uint64_t uu = (u + seed) % total_units; return blob ? blob->build(uu) : fams.empty() ? vg::graph_from_mask(n, uu) : vg::family(fams[uu]); };
+    auto unit_graph0 = [&](uint64_t u) { uint64_t uu = ((u / wchunks) + seed) % ngraphs; return blob ? blob->build(uu) : fams.empty() ? vg::graph_from_mask(n, uu) : vg::family(fams[uu]); };
     auto unit_graph = [&](uint64_t u) { vg::EdgeList g = unit_graph0(u); vg::orient(g, orient_mode); return g; };
     auto describe = [&](uint64_t u, uint64_t sub, uint64_t) {
         vg::EdgeList el = unit_graph(u); std::vector<double> w; vg::weighting(alpha, el.m(), sub, w);
@@ -192,12 +195,13 @@ int main(int argc, char **argv) {
     auto work = [&](uint64_t u, uint64_t start_sub) {
         vg::EdgeList el = unit_graph(u);
         int dim = vg::cycle_space_dim(el);
-        if (dim < min_dim) return;
+        if (dim < min_dim || el.m() < min_m || el.m() > max_m) return;
         auto cyc = vg::all_simple_cycles(el);
         uint64_t nw = vg::num_weightings(alpha, el.m());
         std::vector<double> w; vg::weighting(alpha, el.m(), 0, w);
         B b(el, w);
         for (uint64_t s = start_sub; s < nw; ++s) { if (R.expired()) break;
+            if (s % wchunks != u % wchunks) continue;
             vg::weighting(alpha, el.m(), s, w);
             R.sh->crumbs[R.worker_id].sub.store(s);
             R.count(C_INPUTS); if (dim >= 1) R.count(C_NONTRIV);
@@ -205,6 +209,7 @@ int main(int argc, char **argv) {
         }
     };
     double t0 = vr::now_s();
+    A.has("out"); A.require_all_used();
     auto res = R.run(total_units, work, describe);
     double wall = vr::now_s() - t0;
     std::vector<std::string> samples;
